@@ -25,5 +25,17 @@ for patch in "$here"/selftest/mutants/*.patch; do
   if ! grep -q "^VIOLATION property=$prop " <<<"$out"; then ok=0; echo "SELFTEST $name: no VIOLATION line"; fi
   if [ $ok = 1 ]; then echo "SELFTEST $name: detected ($prop)"; else fail=1; echo "$out" | tail -5; fi
 done
+# seeded changes from independent sub-agents: each must produce a VIOLATION of its property
+for d in "$here"/seeded/*/; do
+  name=$(basename "$d")
+  case "$name" in *"${1:-}"*) ;; *) continue;; esac
+  [ -f "$d/patch.diff" ] || continue
+  prop=$(python3 -c "import json;print(json.load(open('$d/meta.json'))['property'])")
+  git -C "$tmp/wt" checkout -q -- . ; git -C "$tmp/wt" clean -fdq
+  if ! git -C "$tmp/wt" apply "$d/patch.diff" 2>/dev/null; then echo "SELFTEST seed $name: patch does not apply (stale)"; fail=1; continue; fi
+  out=$(GOVC_REPO="$tmp/wt" GOVC_TMP="$tmp/work" "$here/bin/govc" check -prop "$prop" -no-evidence -no-replay -verif "$here" 2>&1)
+  n=$((n+1))
+  if grep -q "^VIOLATION property=$prop " <<<"$out"; then echo "SELFTEST seed $name: detected ($prop)"; else fail=1; echo "SELFTEST seed $name: NOT detected ($prop)"; echo "$out" | tail -3; fi
+done
 echo "selftest: $n mutants run, failures=$fail"
 exit $fail
